@@ -29,7 +29,7 @@ def node_id(info):
 
 def build(plan):
     """plan: dict(op, nodes) -> (schema, query)"""
-    from py_gql.schema import Field, Int, ListType, NonNullType, ObjectType, ScalarType, Schema
+    from py_gql.schema import Argument, Field, Int, ListType, NonNullType, ObjectType, ScalarType, Schema
     nul = ScalarType("Nul", serialize=lambda v: None if v == "NULLME" else v, parse=lambda v: v)
     nodes = plan["nodes"]
     kids = {}
@@ -53,8 +53,12 @@ def build(plan):
             return ListType(NonNullType(Int))
         return Int
 
+    def args_of(i):
+        # argerr: `fN(x: Int! = 3)` selected as fN(x: $nv) with `$nv: Int = null`
+        return [Argument("x", NonNullType(Int), default_value=3)] if nodes[i - 1]["out"] == "argerr" else []
+
     def fields_of(p):
-        return lambda p=p: [Field("f%d" % i, type_of(i)) for i in kids.get(p, [])]
+        return lambda p=p: [Field("f%d" % i, type_of(i), args_of(i)) for i in kids.get(p, [])]
     for i, n in enumerate(nodes, 1):
         if n["out"] == "obj":
             types[i] = ObjectType("T%d" % i, fields_of(i))
@@ -64,11 +68,11 @@ def build(plan):
     else:
         schema = Schema(root)
 
-    def sel(p):
-        return " ".join("f%d%s" % (i, (" { %s }" % sel(i)) if nodes[i - 1]["out"] == "obj" else "") for i in kids.get(p, []))
-
     def one(i):
-        return "f%d%s" % (i, (" { %s }" % sel(i)) if nodes[i - 1]["out"] == "obj" else "")
+        return "f%d%s%s" % (i, "(x: $nv)" if nodes[i - 1]["out"] == "argerr" else "", (" { %s }" % sel(i)) if nodes[i - 1]["out"] == "obj" else "")
+
+    def sel(p):
+        return " ".join(one(i) for i in kids.get(p, []))
     # gamma variants of the SAME abstract plan (CollectFields-equivalent documents)
     v = plan.get("variant") or {}
     tops = kids.get(0, [])
@@ -89,14 +93,15 @@ def build(plan):
     if v.get("dup") and tops:
         body += " ...Dup"
         frags.append("fragment Dup on Root { %s }" % one(tops[0]))
-    query = "%s { %s }%s" % (plan["op"], body, "".join("\n" + f for f in frags))
+    head = plan["op"] + (" ($nv: Int = null)" if any(n["out"] == "argerr" for n in nodes) else "")
+    query = "%s { %s }%s" % (head, body, "".join("\n" + f for f in frags))
     return schema, query, kids
 
 
 def behave(plan, n):
     from py_gql.exc import ResolverError
     out = plan["nodes"][n - 1]["out"]
-    if out == "val":
+    if out in ("val", "argerr"):      # (argerr: only reached when the implementation wrongly invokes the resolver)
         return n
     if out in ("null", "nullnn"):
         return None
@@ -133,6 +138,9 @@ def set_resolvers(schema, plan, kids, make):
         for i in kids.get(p, []):
             f = t.field_map["f%d" % i]
             r = make(i)
+            if plan["nodes"][i - 1]["out"] == "argerr":
+                # the field declares `x: Int! = 3`; its resolver must never run (argument coercion fails first)
+                r = (lambda root, ctx, info, x=None, _r=r: _r(root, ctx, info))
             if p == 0 and root is not None:
                 setattr(root, "f%d" % i, (lambda ctx, info, _r=r, **kw: _r(root, ctx, info, **kw)))
             else:
